@@ -62,14 +62,15 @@ FAM_VARIANTS = {"Option": {0: "None", 1: "Some"}, "Result": {0: "Ok", 1: "Err"},
 
 
 class State:
-    __slots__ = ("env", "store")
+    __slots__ = ("env", "store", "trail")
 
-    def __init__(self, env=None, store=None):
+    def __init__(self, env=None, store=None, trail=()):
         self.env = env if env is not None else {}
         self.store = store if store is not None else Store()
+        self.trail = trail          # (block, successor) decisions; only kept in path-separated region passes
 
     def copy(self):
-        return State(dict(self.env), self.store.copy())
+        return State(dict(self.env), self.store.copy(), self.trail)
 
     @property
     def bottom(self):
@@ -301,6 +302,10 @@ class Interp:
         k = o["k"]
         if k == "const":
             ty = o.get("ty", "")
+            if "val" not in o and o.get("tyconst") and is_int_ty(ty):
+                m = re.match(r"^(-?\d+)_[ui]\w+$", o.get("text") or "")
+                if m:
+                    return ("int", Lin.const(int(m.group(1))))
             if "val" in o and (is_int_ty(ty) or ty in ("bool", "char")):
                 if ty == "bool":
                     return ("bool", ("const", bool(o["val"])))
@@ -409,6 +414,8 @@ class Interp:
                 if adt == "std::ops::ControlFlow":
                     return ("opt", vn, ops[0] if ops else None, "ControlFlow")
                 return ("agg", adt, vn, tuple(r.get("fields") or ()), tuple(ops))
+            if ak == "closure":
+                return ("agg", "closure:" + (r.get("closure") or "?"), None, tuple(str(i) for i in range(len(ops))), tuple(ops))
             return TOP
         if k == "discr":
             key, left = self.resolve(st, frame, r["p"])
